@@ -178,6 +178,12 @@ def handle (op : String) (a : Json) : Except String Json := do
   | "import_annotation" =>
     return exceptJ clipAnnJ (importAnnotation (← optsOf a getLabelOpts) (← fldBool a "adjust")
       (← getRec (← fld a "rec")) (← getCrowAnn (← fld a "crow")))
+  | "import_annotation_load" =>
+    -- `recording=None`: "loaded" is what `Recording.from_file` returned for the notated path (observed
+    -- by the harness; the contract `loaded.path = notated path` is evaluated there)
+    let loaded ← getRec (← fld a "loaded")
+    return exceptJ clipAnnJ (importAnnotationLoad (← optsOf a getLabelOpts) (← fldBool a "adjust")
+      (fun _ => loaded) (← getCrowAnn (← fld a "crow")))
   | "export_segment" =>
     return exceptJ segmentJ (exportSegment (← optsOf a getTagsOpts) (← fldBool a "cast") (← fldRat a "sr")
       (← getAnn (← fld a "ann")))
